@@ -313,6 +313,33 @@ struct Case {
 
 static UDS_SEQ: AtomicU64 = AtomicU64::new(0);
 
+/// scenario ops that legitimately wait in real time (`bld`, `pse`) tick this while they run, for at most four
+/// minutes, so that the spinning-accept-loop watchdog does not mistake them for a hang
+static HEARTBEAT: AtomicU64 = AtomicU64::new(0);
+
+struct Beating(Arc<std::sync::atomic::AtomicBool>);
+impl Beating {
+    fn start() -> Beating {
+        let on = Arc::new(std::sync::atomic::AtomicBool::new(true));
+        let on2 = on.clone();
+        std::thread::spawn(move || {
+            for _ in 0..240 {
+                if !on2.load(Ordering::SeqCst) {
+                    break;
+                }
+                HEARTBEAT.fetch_add(1, Ordering::SeqCst);
+                std::thread::sleep(Duration::from_secs(1));
+            }
+        });
+        Beating(on)
+    }
+}
+impl Drop for Beating {
+    fn drop(&mut self) {
+        self.0.store(false, Ordering::SeqCst);
+    }
+}
+
 fn kv<'a>(ws: &'a [&str], key: &str) -> Option<&'a str> {
     ws.iter().find_map(|w| w.strip_prefix(key).and_then(|r| r.strip_prefix('=')))
 }
@@ -547,6 +574,7 @@ fn run_bld(ws: &[&str]) -> Option<(String, Vec<String>)> {
     thread_local! { static INPROG: std::cell::Cell<usize> = const { std::cell::Cell::new(0) }; }
     let sh = Arc::new(Shared { maxper: AtomicUsize::new(0), started: AtomicUsize::new(0), done: AtomicUsize::new(0), release: AtomicBool::new(false) });
     let calls: Vec<String> = calls.iter().map(|c| c.to_string()).collect();
+    let _beat = Beating::start();
     let sh2 = sh.clone();
     let res = std::thread::spawn(move || -> Result<(usize, usize, usize), String> {
         let sh = sh2;
@@ -659,6 +687,176 @@ fn run_bld(ws: &[&str]) -> Option<(String, Vec<String>)> {
     Some((real, t3.into_iter().map(|(p, m)| format!("{p}\t{m}")).collect()))
 }
 
+/// `pse workers=W ls=<k1,k2,…>` with `k` in `tb` (TCP via `bind`), `tl` (TCP via `listen`), `ub` (UDS via
+/// `bind_uds`), `ul` (UDS via `listen_uds`): a REAL `Server` through the public builder; on every listener:
+/// connect A (served), `pause()`, wait, connect B, wait, `resume()`, wait until B is served.
+/// Output `during=<connections served between pause and resume> after=<served after resume>`.
+/// T3 (C05): a connection is served while paused, or is not served after resume. The wait after `pause()` is
+/// what "has taken effect" means; to be load-proof the scenario is repeated with a longer wait before a
+/// connection served during the pause is believed.
+fn run_pse(ws: &[&str]) -> Option<(String, Vec<String>)> {
+    use std::sync::atomic::AtomicUsize;
+    let workers: usize = kv(ws, "workers")?.parse().ok()?;
+    let kinds: Vec<String> = kv(ws, "ls")?.split(',').map(String::from).collect();
+    if !(1..=4).contains(&workers) || kinds.is_empty() || kinds.len() > 4 || !kinds.iter().all(|k| matches!(k.as_str(), "tb" | "tl" | "ub" | "ul")) {
+        return None;
+    }
+    let nl = kinds.len();
+    let _beat = Beating::start();
+    let mut last = (0usize, 0usize, String::new());
+    for attempt in 0..3u32 {
+        let settle = Duration::from_millis(1200 * (1 << attempt) as u64);
+        let kinds2 = kinds.clone();
+        let res = std::thread::spawn(move || -> Result<(usize, usize), String> {
+            actix_rt::System::new().block_on(async move {
+                let served = Arc::new(AtomicUsize::new(0));
+                let mut b = actix_server::Server::build().workers(workers).disable_signals();
+                enum A {
+                    Tcp(std::net::SocketAddr),
+                    Uds(std::path::PathBuf),
+                }
+                let mut addrs = vec![];
+                for (i, k) in kinds2.iter().enumerate() {
+                    let sv = served.clone();
+                    let fac = move || {
+                        let sv = sv.clone();
+                        actix_service::fn_service(move |_s: actix_rt::net::TcpStream| {
+                            sv.fetch_add(1, Ordering::SeqCst);
+                            async { Ok::<_, ()>(()) }
+                        })
+                    };
+                    let sv = served.clone();
+                    let ufac = move || {
+                        let sv = sv.clone();
+                        actix_service::fn_service(move |_s: actix_rt::net::UnixStream| {
+                            sv.fetch_add(1, Ordering::SeqCst);
+                            async { Ok::<_, ()>(()) }
+                        })
+                    };
+                    match k.as_str() {
+                        "tb" | "tl" => {
+                            let mut tries = 0;
+                            let lst = loop {
+                                match std::net::TcpListener::bind("127.0.0.1:0") {
+                                    Ok(l) => break l,
+                                    Err(e) if tries < 300 && matches!(e.kind(), io::ErrorKind::AddrInUse | io::ErrorKind::AddrNotAvailable) => {
+                                        tries += 1;
+                                        tokio::time::sleep(Duration::from_millis(200)).await;
+                                    }
+                                    Err(e) => return Err(format!("bind: {e}")),
+                                }
+                            };
+                            let addr = lst.local_addr().map_err(|e| e.to_string())?;
+                            if k == "tl" {
+                                b = b.listen(format!("l{i}"), lst, fac).map_err(|e| format!("listen: {e}"))?;
+                            } else {
+                                drop(lst); // the port is free again; `bind` creates its own socket on it
+                                b = b.bind(format!("l{i}"), addr, fac).map_err(|e| format!("bind: {e}"))?;
+                            }
+                            addrs.push(A::Tcp(addr));
+                        }
+                        _ => {
+                            let dir = std::path::Path::new("/verif/.build/run/uds");
+                            std::fs::create_dir_all(dir).map_err(|e| e.to_string())?;
+                            let p = dir.join(format!("pse-{}-{}.sock", std::process::id(), UDS_SEQ.fetch_add(1, Ordering::SeqCst)));
+                            let _ = std::fs::remove_file(&p);
+                            if k == "ul" {
+                                let lst = std::os::unix::net::UnixListener::bind(&p).map_err(|e| format!("uds bind: {e}"))?;
+                                b = b.listen_uds(format!("l{i}"), lst, ufac).map_err(|e| format!("listen_uds: {e}"))?;
+                            } else {
+                                b = b.bind_uds(format!("l{i}"), &p, ufac).map_err(|e| format!("bind_uds: {e}"))?;
+                            }
+                            addrs.push(A::Uds(p));
+                        }
+                    }
+                }
+                let srv = b.run();
+                let handle = srv.handle();
+                let task = actix_rt::spawn(srv);
+                let mut keep: Vec<Client> = vec![];
+                let connect = |a: &A, keep: &mut Vec<Client>| -> Result<(), String> {
+                    match a {
+                        A::Tcp(addr) => {
+                            let c = std::net::TcpStream::connect(addr).map_err(|e| format!("connect: {e}"))?;
+                            let _ = socket2::SockRef::from(&c).set_linger(Some(Duration::ZERO));
+                            keep.push(Client::Tcp(c));
+                        }
+                        A::Uds(p) => keep.push(Client::Uds(std::os::unix::net::UnixStream::connect(p).map_err(|e| format!("connect uds: {e}"))?)),
+                    }
+                    Ok(())
+                };
+                let wait_for = |n: usize, served: Arc<AtomicUsize>, max: Duration| async move {
+                    let t0 = std::time::Instant::now();
+                    while served.load(Ordering::SeqCst) < n && t0.elapsed() < max {
+                        tokio::time::sleep(Duration::from_millis(10)).await;
+                    }
+                    served.load(Ordering::SeqCst)
+                };
+                // A on every listener: served
+                for a in &addrs {
+                    connect(a, &mut keep)?;
+                }
+                let s1 = wait_for(addrs.len(), served.clone(), Duration::from_secs(30)).await;
+                if s1 < addrs.len() {
+                    return Err(format!("only {s1} of {} first connections were served within 30 s", addrs.len()));
+                }
+                handle.pause().await;
+                tokio::time::sleep(settle).await;
+                for a in &addrs {
+                    connect(a, &mut keep)?;
+                }
+                tokio::time::sleep(Duration::from_millis(400)).await;
+                let during = served.load(Ordering::SeqCst) - s1;
+                handle.resume().await;
+                let s3 = wait_for(2 * addrs.len(), served.clone(), Duration::from_secs(30)).await;
+                let after = s3 - s1 - during;
+                drop(keep);
+                // (a server whose accept thread no longer reacts cannot be stopped: do not wait long for it)
+                let _ = tokio::time::timeout(Duration::from_secs(8), handle.stop(false)).await;
+                let _ = tokio::time::timeout(Duration::from_secs(4), task).await;
+                for a in &addrs {
+                    if let A::Uds(p) = a {
+                        let _ = std::fs::remove_file(p);
+                    }
+                }
+                Ok((during, after))
+            })
+        })
+        .join();
+        match res {
+            Ok(Ok((during, after))) => {
+                last = (during, after, String::new());
+                if during == 0 {
+                    break;
+                }
+            }
+            Ok(Err(e)) => {
+                last = (0, 0, format!("setup-error {e}"));
+                break;
+            }
+            Err(_) => {
+                last = (0, 0, "panic".into());
+                break;
+            }
+        }
+    }
+    let (during, after, err) = last;
+    let mut t3 = vec![];
+    if !err.is_empty() {
+        if err.contains("first connections were served") {
+            t3.push(format!("C05\t{err}"));
+        }
+        return Some((err, t3));
+    }
+    if during > 0 {
+        t3.push(format!("C05\t{during} connection(s) were dispatched while the server was paused (listeners {}; pause() had returned at least 4.8 s earlier in the last of three attempts)", kinds.join(",")));
+    }
+    if during + after < nl {
+        t3.push(format!("C05\tafter resume only {} of {nl} connections that arrived during the pause were served within 30 s (listeners {}): a listener is stranded", during + after, kinds.join(",")));
+    }
+    Some((format!("during={during} after={after}"), t3))
+}
+
 fn run(a: &Args) {
     silence_panics();
     let progress = Arc::new(AtomicU64::new(0));
@@ -669,11 +867,13 @@ fn run(a: &Args) {
         let wprop = a.prop.clone();
         std::thread::spawn(move || {
             let mut last = u64::MAX;
+            let mut last_hb = u64::MAX;
             let mut same = 0;
             loop {
                 std::thread::sleep(Duration::from_secs(1));
                 let p = progress.load(Ordering::SeqCst);
-                if p == last {
+                let hb = HEARTBEAT.load(Ordering::SeqCst);
+                if p == last && hb == last_hb {
                     same += 1;
                     if same >= 20 {
                         if let Some(o) = &out {
@@ -688,6 +888,7 @@ fn run(a: &Args) {
                     }
                 } else {
                     last = p;
+                    last_hb = hb;
                     same = 0;
                 }
             }
@@ -720,6 +921,16 @@ fn run(a: &Args) {
                         Err(e) => format!("setup-error {e}"),
                     }
                 }
+                ["pse", ..] => match run_pse(&ws) {
+                    Some((real, t3)) => {
+                        for t in t3 {
+                            let (p, m) = t.split_once('\t').unwrap();
+                            rep.t3(p, m);
+                        }
+                        real
+                    }
+                    None => "bad-op".into(),
+                },
                 ["bld", ..] => match run_bld(&ws) {
                     Some((real, t3)) => {
                         for t in t3 {
@@ -1186,6 +1397,20 @@ fn gen(a: &Args) {
                 writeln!(w, "k-bits {} set {i} {}", ws.join(" "), rng.below(2)).unwrap();
             }
         }
+    }
+    if prop == "C05" {
+        // every way a listener can be handed to the builder: pause holds connections back, resume serves them
+        writeln!(w, "case builder-pause workers=1 limit=1 listeners=tcp").unwrap();
+        for l in ["pse workers=1 ls=ul,tl", "pse workers=2 ls=ub,tb"] {
+            writeln!(w, "{l}").unwrap();
+        }
+        if thorough {
+            for l in ["pse workers=1 ls=ul", "pse workers=1 ls=ub", "pse workers=1 ls=tl", "pse workers=1 ls=tb", "pse workers=3 ls=tb,ul,tl,ub"] {
+                writeln!(w, "{l}").unwrap();
+            }
+        }
+        writeln!(w, "pse workers=1 ls=xx").unwrap();
+        writeln!(w, "pse workers=0 ls=tb").unwrap();
     }
     if prop == "C02" {
         // the configured limit reaches the workers whatever the order of the builder calls: real `Server`s
